@@ -138,7 +138,7 @@ def run_replay(pid, path, timeout=120):
     except subprocess.TimeoutExpired:
         return None, 'replay timed out'
     out = (p.stdout + p.stderr)[-4000:]
-    if p.returncode == 1:
+    if p.returncode == 1 and 'REPRODUCED: ' in p.stdout:
         return True, out
     if p.returncode == 0:
         return False, out
